@@ -68,4 +68,35 @@ PROPS = {
         level_note='Num/Interp.v is hand-written and compared bit for bit (values and IndexError) with the real interpDict on random tables '
                    '(shuffled insertion order, adjacent-float keys, both flags) and on every shipped table at nodes and mid-points.',
     ),
+    'C19': dict(
+        own_files=['Lemmas/LC19.v', 'Props/C19.v'],
+        corr=[dict(script='corr_gen.py', n=300, n_thorough=5000, args=['Stratified.beta', 'Stratified.perimeters', 'Stratified.areas']),
+              dict(script='corr_interp.py', n=40, n_thorough=500)],
+        search='C19.py', budget_quick=300, budget_thorough=6000,
+        partial=[],
+        level_text='Proof: A1+A2 = Ap, A2 = Ap*Cvs/Cvb, O1+O2 = Op = pi*Dp, O12 = Dp*sin(beta) for all reals (ring); each of the 33 regenerated '
+                   'table rows reproduces the circular-segment area fraction within 1e-5 (33 interval goals, exhaustive); for EVERY real area '
+                   'fraction in [0,1] (not a grid) the lookup succeeds and the interpolated half-angle reproduces it within 0.0075 (32 one-variable '
+                   'interval goals with bisection + a general location lemma); rows increase in both columns from (0,0) to (1, pi +- 1e-7).',
+        level_note='Table and functions regenerated from DHLLDV_constants.py / stratified.py each run (a typo in any row fails that row\'s goal); '
+                   'interval arithmetic (Coq Interval 4.6) runs inside the kernel VM; exact reals, rounding not modelled.',
+    ),
+    'C20': dict(
+        own_files=['Lemmas/LC20.v', 'Lemmas/SwameeJain.v', 'Props/C20.v'],
+        corr=[dict(script='corr_gen.py', n=250, n_thorough=5000,
+                   args=['WilsonStratified.Vsm_max', 'WilsonStratified.Vsm_max_f', 'WilsonStratified.Cvr_max', 'WilsonStratified.Vsm',
+                         'WilsonStratified.Vsm_f', 'WilsonStratified.Erhg', 'WilsonStratified.stratified_head_loss', 'WilsonV50.w',
+                         'WilsonV50.sigma', 'WilsonV50.M', 'WilsonV50.V50', 'WilsonV50.Erhg', 'WilsonV50.heterogeneous_head_loss'])],
+        search='C20.py', budget_quick=400, budget_thorough=20000,
+        partial=['C20_V50_terminates: that the 4-digit-agreement loop of V50 ends (exists fuel with a Some result) on E is not proved; searched only',
+                 'C20_V50_equation 0.5 %: proved is the exit condition (|ff_this - ff_last| < 1e-4 and the result is F applied to the last iterate); '
+                 'the step from there to |V50/F(V50) - 1| <= 0.5 % needs the friction-factor elasticity bound and is searched only',
+                 'C20_ws_nonincreasing: the Wilson stratified excess gradient not rising with line speed is searched, not yet proved'],
+        level_text='Proof (all reals, regenerated model): 0 <= Vsm <= Vsm_max with and without the friction-factor alternative; Vsm at Cvr_max equals '
+                   'Vsm_max within 0.2 % on both branches of Eqn 6.20-36 (the defect repaired by the fix: commit made the second branch false); '
+                   '0.05 <= Cvr_max <= 0.66; 0.25 <= M <= 1.7; the V50 loop, when it returns, returns F(last iterate) with the last two friction '
+                   'factors within 1e-4; both gradients exceed the water gradient; the V50 excess gradient does not rise with line speed.',
+        level_note='Termination of the V50 loop, the 0.5 % reading of its fixed point and the Wilson-stratified monotonicity are partial (search only). '
+                   'Model regenerated from the Python each run and executed bit-exactly against it (V50 with fuel 400).',
+    ),
 }
